@@ -400,16 +400,16 @@ Proof.
     + destruct (h_c_fin s) as [b0|] eqn:F.
       * split; [exact G|]. unfold mc, mu. rewrite F. split; reflexivity.
       * destruct (h_c_todo s) as [|ch rest] eqn:T.
-        -- rewrite Gce. split; [constructor; hproj; try assumption; intros b Hb; inversion Hb; exact Gco|].
+        -- rewrite Gce. split; [constructor; hproj; try assumption; try reflexivity; intros b Hb; inversion Hb; exact Gco|].
            unfold mc, mu. hproj. rewrite F, T. split; reflexivity.
-        -- split; [constructor; hproj; try assumption; intros b Hb; discriminate Hb|].
+        -- split; [constructor; hproj; try assumption; try reflexivity; intros b Hb; discriminate Hb|].
            unfold mc, mu. hproj. rewrite F, T. split; reflexivity.
     + destruct (h_u_fin s) as [b0|] eqn:F.
       * split; [exact G|]. unfold mc, mu. rewrite F. split; reflexivity.
       * destruct (h_u_todo s) as [|ch rest] eqn:T.
-        -- rewrite Gue. split; [constructor; hproj; try assumption; intros b Hb; inversion Hb; exact Gci|].
+        -- rewrite Gue. split; [constructor; hproj; try assumption; try reflexivity; intros b Hb; inversion Hb; exact Gci|].
            unfold mc, mu. hproj. rewrite F, T. split; reflexivity.
-        -- split; [constructor; hproj; try assumption; intros b Hb; discriminate Hb|].
+        -- split; [constructor; hproj; try assumption; try reflexivity; intros b Hb; discriminate Hb|].
            unfold mc, mu. hproj. rewrite F, T. split; reflexivity.
 Qed.
 
@@ -457,14 +457,24 @@ Proof.
   intros Hue Hf Hc Hco. unfold hstep.
   assert (E : h_ended s = false).
   { unfold h_ended. rewrite Hf. destruct (h_c_fin s) as [[|]|] eqn:F; try reflexivity. pose proof (Hc false eq_refl). discriminate. }
-  rewrite E. destruct d; cbn [is_c2u].
-  - destruct (h_c_fin s) as [b0|] eqn:F; [repeat split; assumption|].
-    destruct (h_c_todo s) as [|ch rest].
-    + destruct (h_c_eof s); hproj; repeat split; try assumption; try (intros b Hb; inversion Hb; exact Hco); try (intros b Hb; discriminate Hb).
-    + hproj. repeat split; try assumption. intros b Hb; discriminate Hb.
+  rewrite E.
+  assert (Hc' : forall b, Some (h_cw_out s) = Some b -> b = true) by (intros b Hb; inversion Hb; exact Hco).
+  destruct d; cbn [is_c2u].
+  - destruct (h_c_fin s) as [b0|] eqn:F.
+    + split; [exact Hue|]. split; [exact Hf|]. split; [intros b Hb; rewrite F in Hb; exact (Hc b Hb)|].
+      split; [exact Hco|]. split; reflexivity.
+    + destruct (h_c_todo s) as [|ch rest].
+      * destruct (h_c_eof s); hproj.
+        -- split; [exact Hue|]. split; [exact Hf|]. split; [exact Hc'|]. split; [exact Hco|]. split; reflexivity.
+        -- split; [exact Hue|]. split; [exact Hf|]. split; [intros b Hb; rewrite F in Hb; discriminate Hb|].
+           split; [exact Hco|]. split; reflexivity.
+      * hproj. split; [exact Hue|]. split; [exact Hf|]. split; [intros b Hb; discriminate Hb|].
+        split; [exact Hco|]. split; reflexivity.
   - rewrite Hf. destruct (h_u_todo s) as [|ch rest] eqn:T.
-    + rewrite Hue. rewrite T. repeat split; assumption.
-    + hproj. repeat split; try assumption. cbn [concat]. now rewrite app_assoc.
+    + rewrite Hue. split; [exact Hue|]. split; [exact Hf|]. split; [exact Hc|]. split; [exact Hco|].
+      rewrite T. split; reflexivity.
+    + hproj. split; [exact Hue|]. split; [reflexivity|]. split; [exact Hc|]. split; [exact Hco|].
+      split; [reflexivity|]. cbn [concat]. now rewrite app_assoc.
 Qed.
 
 Theorem half_close_reply_delivered_live : forall sched c ceof u ci,
